@@ -115,6 +115,7 @@ package priority
 //@   [*] allocated(dsc.priorities.arr) && allocated(dsc.actual) && allocated(dsc.tactic) && allocated(dsc.strategic)
 //@   [* C01] forall k :: dsc.actual[k] == gInflP[k]
 //@   [* C01] msum(dsc.actual) == gInfl && gInfl <= gH
+//@   [* C01] msum(dsc.strategic) <= gH
 //@   [C05] saturation-is-stated-for-buffered-inputs: forall k :: dom(dsc.inputs, k) ==> (cap(dsc.inputs[k].Channel) != 0 && !dsc.inputs[k].Drained)
 //@   [C05 C06] len(dsc.priorities) > 0
 //@   [C05 C06] shares-sum-to-handlers-quantity: msum(dsc.strategic) == gH
@@ -203,9 +204,9 @@ package priority
 //@   ensures [* C01] result ==> msum(dsc.tactic) == vacants
 //@   ensures [C05 C06] within-shares-means-proceed: ((forall j :: 0 <= j && j < len(dsc.priorities) ==> dsc.actual[dsc.priorities[j]] <= dsc.strategic[dsc.priorities[j]]) && vacants == gH - msum(dsc.actual)) ==> result
 //@   ensures [C05] result ==> (forall j :: 0 <= j && j < len(dsc.priorities) ==> dsc.tactic[dsc.priorities[j]] == dsc.strategic[dsc.priorities[j]] - dsc.actual[dsc.priorities[j]])
-//@   assume-arith add-overflow[2]
 //@   loop 0
 //@     invariant [*] picked == msum(dsc.tactic)
+//@     invariant [*] no-wrap: picked <= msumR(dsc.strategic, pset(dsc.priorities, $i))
 //@     invariant [*] forall j :: $i <= j && j < len(dsc.priorities) ==> dsc.tactic[dsc.priorities[j]] == 0
 //@     invariant [C05 C06] picked == msumR(dsc.strategic, pset(dsc.priorities, $i)) - msumR(dsc.actual, pset(dsc.priorities, $i))
 //@     invariant [C05] forall k :: !in(pset(dsc.priorities, len(dsc.priorities)), k) ==> dsc.tactic[k] == 0
@@ -520,6 +521,7 @@ package priority
 //@   modifies gDivErr, gPerm, gInv
 //@   ensures [*] result3 == nil ==> (result0 != nil && result2 != nil && result0 != result2 && fresh(result0) && fresh(result2) && result1.arr != 0 && fresh(result1.arr))
 //@   ensures [*] result3 == nil ==> (strictlyDesc(result1) && allIn(result1, gPset))
+//@   ensures [* C01] result3 == nil ==> msum(result2) <= gH
 //@   ensures [*] result3 == nil ==> (forall k :: in(gPset, k) ==> dom(result0, k))
 //@   ensures [* C02 C07] result3 == nil ==> (forall k :: dom(result0, k) ==> !result0[k].Drained)
 //@   ensures [C15] creation-fault-is-reported: gDivErr ==> result3 == ErrDividerBad
